@@ -95,6 +95,42 @@ fn gen_valid(r: &mut SplitMix) -> Vec<u8> {
         }
         t.push_str(&format!("{owner}{tc}{rec}{nl}"));
     }
+    if chance(r, 12) {
+        // names around the 255-octet limit on the wire, made of a relative part and the origin in
+        // force (or absolute), as owner and inside RDATA: the completed name is `total` octets
+        // long on the wire, with total in 253..=258 - at most 255 is a name, more is an error
+        let origin = *pick(r, &["example.", "o.", "a-rather-longer-origin.example.", "."]);
+        let origin_wire = if origin == "." { 1 } else { origin.len() + 1 };
+        let total = range(r, 253, 258) as usize;
+        // relative labels: (1 + len) each
+        let mut need = total - origin_wire;
+        let mut labels: Vec<String> = vec![];
+        while need > 0 {
+            let take = if need > 64 { let t = range(r, 2, 64) as usize; if need - t == 1 { t - 1 } else { t } } else { need };
+            // one label of `take` octets on the wire = take-1 characters; some written with escapes
+            let chars = take - 1;
+            if chars == 0 { break; }
+            let mut l = String::new();
+            for i in 0..chars {
+                if i == 0 && chance(r, 10) { l.push_str("\\065"); } else if chance(r, 3) { l.push_str("\\."); } else { l.push('n'); }
+            }
+            labels.push(l);
+            need -= take;
+        }
+        let rel = labels.join(".");
+        let name = if origin == "." || chance(r, 25) { format!("{rel}.{}", if origin == "." { "" } else { origin }) } else { rel };
+        if origin != "." {
+            t.push_str(&format!("$ORIGIN {origin}{nl}"));
+        }
+        let line = match r.below(5) {
+            0 => format!("{name} A 192.0.2.9"),
+            1 => format!("limit NS {name}"),
+            2 => format!("limit MX 5 {name}"),
+            3 => format!("limit SOA {name} hostmaster 1 2 3 4 5"),
+            _ => format!("limit SRV 1 2 3 {name}"),
+        };
+        t.push_str(&format!("{line}{nl}after-limit A 192.0.2.10{nl}"));
+    }
     if chance(r, 10) {
         // no newline at the end of the file
         while t.ends_with('\n') || t.ends_with('\r') {
@@ -255,7 +291,7 @@ impl Prop for C24 {
         h
     }
     fn rule() -> String {
-        "one execution = one generated zone file (50% syntactically rich valid files: all supported types, directives, parentheses, comments, quoted strings, escapes, RFC 3597 generic RDATA, CRLF, missing final newline, fields around the 16 KiB buffer and 64 KiB field limits; 20% token soups; 30% byte-level mutations of valid files) parsed once from a fault-free one-shot stream and then under 3-8 fault plans (read sizes 1..16385, EINTR at chosen calls or for ever, EIO after k octets, torn after k octets, bit flips; for files <= 160 octets every cut point). Non-trivial = at least one fault plan; distinct = distinct (file, plans)".into()
+        "one execution = one generated zone file (50% syntactically rich valid files: all supported types, directives, parentheses, comments, quoted strings, escapes, RFC 3597 generic RDATA, CRLF, missing final newline, fields around the 16 KiB buffer and 64 KiB field limits, names of 253..258 octets on the wire completed by the origin in force, as owner and in RDATA; 20% token soups; 30% byte-level mutations of valid files) parsed once from a fault-free one-shot stream and then under 3-8 fault plans (read sizes 1..16385, EINTR at chosen calls or for ever, EIO after k octets, torn after k octets, bit flips; for files <= 160 octets every cut point). Non-trivial = at least one fault plan; distinct = distinct (file, plans)".into()
     }
     fn assumptions() -> Vec<String> {
         vec![
@@ -274,7 +310,7 @@ impl Prop for C24 {
         "E3 simrt-sequential"
     }
     fn expected_probes() -> Vec<&'static str> {
-        vec!["c24_refill_inside_token", "c24_error_after_prefix", "c24_eintr_propagated", "c24_torn_file_parsed", "c24_records_validated", "c24_syntax_error_file", "c24_include_item", "c24_records_only_with_include"]
+        vec!["c24_refill_inside_token", "c24_error_after_prefix", "c24_eintr_propagated", "c24_torn_file_parsed", "c24_records_validated", "c24_syntax_error_file", "c24_include_item", "c24_records_only_with_include", "c24_name_near_255_yielded"]
     }
 }
 
@@ -331,6 +367,13 @@ fn parse_with(reader: FaultyReader) -> (Vec<Item>, usize, usize) {
                     let t = u16::from(rr.rr_type);
                     if rr.rr_type == Type::NULL || rr.rr_type == Type::OPT || rr.rr_type == Type::TSIG {
                         viol("forbidden-type-yielded", format!("line {}: record of type {t}", line.number));
+                    }
+                    // an absolute owner is a name: at most 255 octets on the wire, ending in the root label
+                    if let Err(e) = quandary::name::Name::validate_uncompressed_all(rr.owner.wire_repr()) {
+                        viol("invalid-owner-yielded", format!("line {}: owner of {} octets on the wire is not a valid absolute name: {e:?}", line.number, rr.owner.wire_repr().len()));
+                    }
+                    if rr.owner.wire_repr().len() >= 253 || rr.rdata.octets().len() >= 253 && matches!(t, 2 | 6 | 15 | 33) {
+                        simrt::probe("c24_name_near_255_yielded");
                     }
                     if let Err(e) = rr.rdata.validate(rr.class, rr.rr_type) {
                         viol("invalid-rdata-yielded", format!("line {}: type {t} class {} RDATA {} fails validation: {e:?}", line.number, u16::from(rr.class), crate::util::hex(rr.rdata.octets())));
